@@ -391,8 +391,10 @@ def run_check(prop_id: str, tier: str, seed: int, replay_path: str | None = None
             "violations": sum(unlisted.values()),
             "target": target.repo_digest(getattr(mod, "FILES", [])),
         }
-        os.makedirs(os.path.join(VERIF, "evidence"), exist_ok=True)
-        with open(os.path.join(VERIF, "evidence", f"{prop_id}.json"), "w") as fh:
+        # evidence describes runs against /repo itself; runs against a scratch copy (self-test) write elsewhere
+        evdir = os.path.join(VERIF, "evidence") if target.REPO == os.path.realpath("/repo") else scratch
+        os.makedirs(evdir, exist_ok=True)
+        with open(os.path.join(evdir, f"{prop_id}.json"), "w") as fh:
             json.dump(ev, fh, indent=1, default=jdefault)
             fh.write("\n")
         print(
